@@ -133,7 +133,7 @@ impl<'a> G<'a> {
         let groups = self.r.range(1, 3);
         for gi in 0..groups {
             let last = gi + 1 == groups;
-            match self.r.below(8) {
+            match self.r.below(9) {
                 0 | 1 => { let n = self.name(); let (t, v, l) = self.gen(depth - 1, greedy && last); tf.push((n.clone(), t)); vf.push((n, v)); len += l; }
                 2 => {
                     // size-dependent field: len field, optionally something in between, then the sized field
@@ -212,6 +212,29 @@ impl<'a> G<'a> {
                     let tx = Sh::Bytes(vec![]);
                     if a_skips { tf.push((xn.clone(), tx.clone())); vf.push((xn, tx)); } else { tf.push((xn.clone(), tx)); vf.push((xn, Sh::Bytes(data))); len += n; }
                     // something after it, so that a desynchronised read shows
+                    let n2 = self.name(); let (t, v, l) = self.int(); tf.push((n2.clone(), t)); vf.push((n2, v)); len += l;
+                }
+                8 => {
+                    // a chain: `a` sizes `b`, and `b` — read from its own window — in turn sizes (or switches off) `c`: a
+                    // field that is the target of one request and the source of the next
+                    let (an, bn, cn) = (self.name(), self.name(), self.name());
+                    let n = self.r.below(6) as usize; let data = self.r.bytes(n);
+                    if self.r.chance(1, 2) {
+                        let le = self.r.chance(1, 2);
+                        let (fa, fb) = (OptFn::Size(bn.clone(), 1, 0, 0), OptFn::Size(cn.clone(), 1, 0, 0));
+                        tf.push((an.clone(), Sh::Dyn(Box::new(Sh::U8(0)), fa.clone()))); vf.push((an, Sh::Dyn(Box::new(Sh::U8(2)), fa))); len += 1;
+                        tf.push((bn.clone(), Sh::Dyn(Box::new(Sh::U16(le, 0)), fb.clone()))); vf.push((bn, Sh::Dyn(Box::new(Sh::U16(le, n as u16)), fb))); len += 2;
+                        tf.push((cn.clone(), Sh::Bytes(vec![]))); vf.push((cn, Sh::Bytes(data))); len += n;
+                    } else {
+                        let seta = *self.r.pick(&[1u64, 2, 0x10]);
+                        let vb = self.r.byte();
+                        let skips = vb as u64 & seta == 0;
+                        let (fa, fb) = (OptFn::Size(bn.clone(), 1, 0, 0), OptFn::SkipIf(cn.clone(), seta, 0));
+                        tf.push((an.clone(), Sh::Dyn(Box::new(Sh::U8(0)), fa.clone()))); vf.push((an, Sh::Dyn(Box::new(Sh::U8(1)), fa))); len += 1;
+                        tf.push((bn.clone(), Sh::Dyn(Box::new(Sh::U8(0)), fb.clone()))); vf.push((bn, Sh::Dyn(Box::new(Sh::U8(vb)), fb))); len += 1;
+                        let (t, v, l) = self.int();
+                        tf.push((cn.clone(), t.clone())); if skips { vf.push((cn, t)); } else { vf.push((cn, v)); len += l; }
+                    }
                     let n2 = self.name(); let (t, v, l) = self.int(); tf.push((n2.clone(), t)); vf.push((n2, v)); len += l;
                 }
                 _ => {
